@@ -64,6 +64,8 @@ type fakeNode struct {
 	racer       *racer
 	faultKey    string
 	faultErr    error
+	delFaultKey string
+	delFaultErr error
 }
 
 // setGetFault: Get of exactly this key fails with err until cleared (the owner of the key is unavailable)
@@ -156,7 +158,20 @@ func (n *fakeNode) Get(ctx context.Context, key []byte) ([]byte, error) {
 	done(resOf(err))
 	return v, err
 }
+// setDelFault: Delete of exactly this key fails with err until cleared (the ring node that owns the key cannot be reached)
+func (n *fakeNode) setDelFault(key string, err error) {
+	n.mu.Lock()
+	n.delFaultKey, n.delFaultErr = key, err
+	n.mu.Unlock()
+}
+
 func (n *fakeNode) Delete(ctx context.Context, key []byte) error {
+	n.mu.Lock()
+	dk, de := n.delFaultKey, n.delFaultErr
+	n.mu.Unlock()
+	if de != nil && dk == string(key) {
+		return de
+	}
 	n.log("Delete", key)
 	done := n.gate(ctx, "Delete", key)
 	err := n.store().Delete(ctx, key)
